@@ -940,8 +940,8 @@ def run(chk, pid):
                 "Tdf.new and crafted files N in {1,2,3,4,5,14}, the first/middle/last-removal strata, >64 KiB payloads, the "
                 "BTS capture; observed: " + RULES[pid] + "; non-trivial = at least one successful mutation and (>= 2 live "
                 "blocks at some point or a rejected call)")
-    if pid == "C04":
-        huge_block_frame(chk)
+    if pid in ("C04", "C03", "C09"):
+        huge_block_frame(chk, pid)
         if chk.n_found():
             return
     if pid in ("C03", "C04", "C09", "C10"):
@@ -1251,7 +1251,7 @@ def held_object_specs(chk):
     return out
 
 
-def huge_block_frame(chk):
+def huge_block_frame(chk, pid="C04"):
     """C04 at the size of a long capture: a recording of more than 32 MiB (quick) / 64 MiB (thorough) added behind two small
     blocks, then the first small block removed so that everything moves.  Judged on the file alone (the block is too large
     to be worth sending through the extracted model; the theorems hold for every size): the other blocks keep entry and
@@ -1273,7 +1273,7 @@ def huge_block_frame(chk):
         size = int(big.nBytes)
         chk.note_case(("huge block", mib), True)
         chk.count("a block of more than 32 MiB added behind other blocks")
-        what = {"scenario": "Tdf.new; add(D3, 'markers'); add(EV); add(EMG of %d samples = %d MiB); remove(D3)" % (n, mib)}
+        what = {"scenario": "Tdf.new; add(D3, 'markers'); add(EV); add(EMG of %d samples = %d MiB); add(OS); remove(OS); remove(D3)" % (n, mib)}
 
         def view():
             raw = open(p, "rb").read()
@@ -1284,7 +1284,8 @@ def huge_block_frame(chk):
                     out[e["type"]] = (e["format"], e["offset"], e["size"], e["cdate"], e["mdate"], e["comment"],
                                       hashlib.sha1(raw[e["offset"]: e["offset"] + e["size"]]).hexdigest())
             live = sum(e["size"] for e in t["entries"] if e["type"] != 0)
-            return out, len(raw), 64 + 288 * t["n"] + live
+            stray = [e["offset"] for e in t["entries"] if e["type"] == 0 and e["offset"] != len(raw)]
+            return out, len(raw), (64 + 288 * t["n"] + live) if not stray else -stray[0]
         try:
             with scripted_clock():
                 Clock.now = T0
@@ -1296,11 +1297,16 @@ def huge_block_frame(chk):
                 with Tdf(p).allow_write() as f:
                     f.add_block(big, "long recording")
                 v1, len1, sum1 = view()
+                osb = container.small_block("OS", rng, 1)
                 with Tdf(p).allow_write() as f:
+                    f.add_block(osb.build(), "behind the long one")        # lands where the unused slots point: behind the recording
+                v1b, len1b, sum1b = view()
+                with Tdf(p).allow_write() as f:
+                    f.remove_block(BlockType.opticalSystemConfiguration)
                     f.remove_block(BlockType.data3D)
                 v2, len2, sum2 = view()
         except Exception as e:
-            chk.violation("C04: %s fails: %s" % (what["scenario"], common.exc_info(e)), what, True)
+            chk.violation("%s: %s fails: %s" % (pid, what["scenario"], common.exc_info(e)), what, True)
             return
         found = None
         for ty in v0:
@@ -1311,7 +1317,17 @@ def huge_block_frame(chk):
         if not found and (em is None or em[2] != size or em[6] != want or em[5] != b"long recording"):
             found = "the long recording is not stored as given: entry %r, encoding is %d bytes" % (em and em[:6], size)
         if not found and len1 != sum1:
-            found = "after the add the file is %d bytes, header + table + blocks = %d" % (len1, sum1)
+            found = ("after the add the file is %d bytes, header + table + blocks = %d" % (len1, sum1)) if sum1 >= 0 else \
+                    ("after the add an unused slot points at %d, the file ends at %d" % (-sum1, len1))
+        if not found:
+            want_os = hashlib.sha1(bytes(osb.as_model()[3][0])).hexdigest()
+            got_os = v1b.get(6)
+            if any(v1b.get(ty) != v1[ty] for ty in v1):
+                found = "a small block added behind the long recording changed another block"
+            elif got_os is None or got_os[6] != want_os or got_os[1] != len1:
+                found = "a small block added behind the long recording is not stored at the end of the data as given (entry %r, data ended at %d)" % (got_os and got_os[:3], len1)
+            elif len1b != sum1b:
+                found = "after the second add the file is %d bytes, header + table + blocks = %d" % (len1b, sum1b)
         if not found:
             gone = v0[5][2]
             for ty in (16, 11):
@@ -1322,7 +1338,7 @@ def huge_block_frame(chk):
                 found = "after the removal the file is %d bytes, header + table + blocks = %d" % (len2, sum2)
         os.unlink(p)
         if found:
-            chk.violation("C04: %s [%s]" % (found, what["scenario"]), what, True)
+            chk.violation("%s: %s [%s]" % (pid, found, what["scenario"]), what, True)
             return
 
 
